@@ -13,7 +13,10 @@
     I:<item>,<item>…   the interactive parser on stdin; item ::= s<lines>:<hex sexp of ONE statement>
                        | b<lines>:<l>:<c> | b<lines>:- | x
     U:<fuel>
+    X:1                compile with the model's own front end (Elab.frontEnd) instead of the C: table
   answer: model=<exit> out=<hex> err=<hex> file=<-|hexpath:hexcontent> arg=<V|-> tr=<-|segs>
+
+  reader <max> <hex>   the reader model alone: `chunks=<hex>,<hex>… spec=eq|ne`
 -/
 import BlocV.Model.Cli
 import BlocV.Spec.Cli
@@ -122,7 +125,7 @@ def specStr (env : Env) (argv : List Bytes) (stdin : Bytes) : String :=
     match src with
     | none => " spec=-"
     | some text =>
-      match library env (dropCr text) args with
+      match library env (readText text) args with
       | .ran r =>
         match r.outcome with
         | .ok ret => match Spec.Cli.selectedOutput Fmt.fmt16g r.st.output ret with
@@ -141,6 +144,16 @@ def specStr (env : Env) (argv : List Bytes) (stdin : Bytes) : String :=
 
 def handle (words : List String) : Option String :=
   match words with
+  | "reader" :: mx :: rest =>
+    -- `reader <max> <hex file>`: the chunks `ReadFile::read` returns call after call (Model/Cli.lean `readChunks`),
+    -- and whether their concatenation is the Spec's "file minus CRs"
+    match mx.toNat? with
+    | none => some "bad-reader-max"
+    | some m =>
+      if m == 0 then some "bad-reader-max" else
+      let file := bytesOfHex (rest.headD "")
+      let cs := readChunks m file
+      some ("chunks=" ++ ",".intercalate (cs.map hexOfBytes) ++ " spec=" ++ (if cs.flatten == Spec.Cli.withoutCr file then "eq" else "ne"))
   | "cli" :: ws =>
     let pick (p : String) : List String := (ws.filter (·.startsWith p)).map fun w => (w.drop p.length).toString
     let argv := (pick "A:").map bytesOfHex
@@ -172,7 +185,11 @@ def handle (words : List String) : Option String :=
         what := whatOf
         usage := str "USAGE"
         header := str "HEADER" }
+      -- `X:1`: no parser table — `Env.compile` is the model's own front end (reader chunks → scanner → parser → elaboration)
+      let useFe := !(pick "X:").isEmpty
+      let env := if useFe then feEnv env else env
       let p := run env argv stdin
+      if useFe && p.stderr == errLine feUnsupported then some "model=unsupported out= err= file=- arg=- tr=-" else
       let arg := match modeOf argv with
         | .program _ _ args => valStr (argTable args)
         | .interactive _ args => valStr (argTable args)
